@@ -123,6 +123,24 @@ def e2(chk, tier):
         bt = Batch(m.encode(), cases, [('explicit', [()])])
         jobs.append(('E2-global-clang', bt, {'cc': 'clang', 'cflags': ('-O0',)}))
         jobs.append(('E2-global-gcc', bt, {'cc': 'gcc', 'cflags': ('-O1',)}))
+        # the same globals behind two imported ones (module-level global index = import count + definition index): the initialisers must land in
+        # the right slots, imported globals are read through the embedder's storage
+        m = Module(); cases = []
+        m.imports.append(('env', 'gi', 3, (I32, 0))); m.imports.append(('env', 'gF', 3, (F64, 1)))
+        for k, (t, b) in enumerate(part):
+            m.globals.append((TCH[t], k % 2, const(t, b)))
+        for k, (t, b) in enumerate(part):
+            if t in REI:
+                body = global_get(k + 2) + numop(REI[t][0]); rt = REI[t][1]
+            else:
+                body = global_get(k + 2); rt = t
+            m.add_func('', rt, (), body, export='f%d' % k)
+            cases.append(Case('f%d' % k, '', rt, 0, -1, 'global-init behind 2 imported globals %s.const %#x' % (TNAME[TCH[t]], b)))
+        m.add_func('', 'I', (), global_get(1) + numop(REI['F'][0]), export='f%d' % len(part))
+        cases.append(Case('f%d' % len(part), '', 'I', 0, -1, 'imported f64 global read back'))
+        bt = Batch(m.encode(), cases, [('explicit', [()])])
+        bt.externs = [('env', 'gi', 'global', ('i', 5)), ('env', 'gF', 'global', ('F', 0x7ff4000000000001))]
+        jobs.append(('E2-global-imports-gcc', bt, {'cc': 'gcc', 'cflags': ('-O1',)}))
     # segment offsets (i32 constants, in bounds): data segments into 2 pages, element segments into a 70 000 slot table
     offs = sorted({0, 1, 2, 3, 7, 63, 64, 127, 128, 129, 255, 256, 16383, 16384, 16385, 32767, 32768, 65535 - 3, 65535, 65536, 65537, 99999, 131072 - 4, 131072 - 5})
     m = Module(); cases = []
